@@ -126,6 +126,13 @@ func runC08(c *core.Ctx) {
 		preludeCheck(c, sc, name, caseID, math.Float64bits(0), math.Float64bits(-0.75), math.Float64bits(0.75),
 			func(raw uint64) bool { return amp(dt, raw) == 0 })
 		chunkNo := 0
+		if ti%4 == 0 || !c.Quick() {
+			if idx, long, short := sc.longCheck([]uint64{math.Float64bits(0), math.Float64bits(-0.75), math.Float64bits(0.75), math.Float64bits(1), math.Float64bits(-1), math.Float64bits(0.3330078125), math.Float64bits(2), math.Float64bits(-1e9)}); idx >= 0 {
+				c.Violate(name+"|buffer-size-dependence", caseID, fmt.Sprintf("position %d of a %d-sample buffer converted in one call gives carrier %#x, the same sample converted in a %d-sample chunk gives %#x", idx, longN, long, chunkN, short),
+					map[string]any{"fn": name, "samples": longN, "position": idx, "channels": sc.ch})
+			}
+			c.Obs("conversions_of_more_than_65536_samples_in_one_call", 1)
+		}
 		var prevX float64
 		var prevA int64
 		have, first := false, true
